@@ -24,6 +24,7 @@ from harness import core
 from harness import lib_c02c14 as L
 from harness import lib_c14cf as CF
 from harness import lib_c14hist as FH
+from harness import lib_isolate as ISO
 
 FEAT = {"inline": False, "init": True, "unused": True, "func": True, "func_in_body": True, "nested_func": True,
         "vary": True, "collide": True, "rmax": True, "mixed": True, "generic": True, "func_if": True, "ml": True}
@@ -238,14 +239,19 @@ def definitions_per_key(m):
 def run_model(m, feeds):
     """-> (outputs dict, runtime name). ORT first; onnx.reference when ORT refuses to load a model the
     full checker accepts (recorded as runtime-unsupported)."""
-    import onnx
+    from harness import lib_isolate as ISO
 
+    # (every native call runs in a forked child: a C++ crash is the result "aborted: ...", never a dead check)
     try:
         return L.run_ort(m, feeds), "ort"
+    except ISO.Aborted as e:
+        return None, f"aborted: onnxruntime {e}"
     except Exception as e:  # noqa: BLE001
         ort_err = str(e)[:200]
     try:
-        onnx.checker.check_model(m, full_check=True)
+        L.check_full(m)
+    except ISO.Aborted as e:
+        return None, f"aborted: onnx.checker {e} (ort={ort_err})"
     except Exception as e:  # noqa: BLE001
         return None, f"invalid: ort={ort_err} checker={str(e)[:200]}"
     try:
@@ -275,6 +281,8 @@ def compare_runtime(spec, m, feeds, out):
     got, rt = run_model(m, feeds)
     out["runtime"] = rt
     if got is None:
+        if rt.startswith("aborted"):
+            return ("runtime-aborted", f"build returned a model on which the runtime / checker kills the process: {rt}")
         if rt.startswith("invalid"):
             return ("model-not-runnable", rt)
         return None
@@ -457,13 +465,19 @@ def judge_cf(ck, cf_results):
         def same(c, key=key):
             return any(k == key for k, _ in CF.judge(c, random.Random(0))["fails"])
 
-        try:
+        def shrunk(case=case, key=key, same=same):
             small = CF.shrink(case, same)
             if small != case:
                 r2 = CF.judge(small, random.Random(0))
                 f2 = [w for k, w in r2["fails"] if k == key]
                 if f2:
-                    case, what, feeds = small, f2[0], r2.get("feeds")
+                    return small, f2[0], r2.get("feeds")
+            return None
+
+        try:  # (in a child process)
+            got = ISO.call(shrunk, timeout=240)
+            if got:
+                case, what, feeds = got
         except Exception:  # noqa: BLE001
             pass
         ck.failure(key, what, {"cf": case, "feeds": feeds})
@@ -636,17 +650,31 @@ def run(ck: core.Check):
     tasks += [(ck.seed, 3 * 10**6 + i, "cf") for i in range(n_cf)]
     n_fh = len(FH.HAND_CASES) + pick(120, 1500)
     tasks += [(ck.seed, 4 * 10**6 + i, "fhist") for i in range(n_fh)]
-    results = L.robust_map(case_worker, tasks, min(14, mp.cpu_count()), core.WORK)
+    results = L.robust_map(case_worker, tasks, min(14, mp.cpu_count()), core.WORK, stall_timeout=900)
     rng = ck.rng
-    for hs in HAND_SPECS:
+    def hand(hs):
         r = {"mode": "collect", "spec": hs, "stats": L.spec_stats(hs)}
-        r.update(judge(hs, rng))
+        r.update(judge(hs, random.Random(0)))
         try:
             r["fg"], r["real"], r["imports"] = extract_fgraph(hs)
         except Exception as e:  # noqa: BLE001
             r["fg"], r["real"], r["imports"] = None, ("unobservable", f"{type(e).__name__}: {e}"), []
-        results.append(r)
-    crashes = [r for r in results if r.get("crash")]
+        return r
+
+    for hs in HAND_SPECS:  # (in a child process: `build` itself calls native code)
+        try:
+            results.append(ISO.call(hand, hs, timeout=300))
+        except ISO.Aborted as e:
+            ck.failure("process-aborted", f"building / judging a hand-written program kills the process: {e}", {"spec": hs})
+        except Exception as e:  # noqa: BLE001
+            results.append({"crash": f"hand spec: {e}", "status": "crash", "spec": None, "mode": "collect"})
+    died = [i for i, r in enumerate(results[:len(tasks)]) if r.get("died")]
+    for i in died:  # native judges run in children of the worker: this worker was killed inside build
+        if "exit code -9" in str(results[i].get("crash")):
+            continue  # killed by the pool for not answering within 15 min (overloaded machine): no verdict
+        ck.failure("process-aborted", f"the process handling generated case {list(tasks[i])} died or stalled "
+                                      "(native crash inside build?)", {"task": list(tasks[i])})
+    crashes = [r for r in results if r.get("crash") and not r.get("died")]
     if crashes:
         ck.broken("correspondence", "C14 generated-program worker failed",
                   f"{len(crashes)} cases; first: {crashes[0]['crash']} {crashes[0].get('trace', '')[-400:]}")
@@ -710,11 +738,15 @@ def run(ck: core.Check):
             return any(k == key and (sig is None or w[:60] == sig)
                        for k, w in judge(s, random.Random(0), feeds)["fails"])
 
-        try:  # shrink the witness (failure path only)
+        def shrunk(spec=spec, key=key, feeds=feeds, same_failure=same_failure):
             small = L.shrink(spec, same_failure, budget=100)
             fails = [w for k, w in judge(small, random.Random(0), feeds)["fails"] if k == key]
-            if fails:
-                spec, what = small, fails[0]
+            return (small, fails[0]) if fails else None
+
+        try:  # shrink the witness (failure path only; in a child process)
+            got = ISO.call(shrunk, timeout=240)
+            if got:
+                spec, what = got
         except Exception:  # noqa: BLE001
             pass
         ck.failure(key, what, {"spec": spec, "feeds": feeds})
@@ -836,7 +868,29 @@ def run(ck: core.Check):
 
 
 def replay(ck: core.Check, doc) -> bool:
+    """True = still fails. Runs in a child process: a native crash on the replayed input is a failure, not exit 2."""
+    try:
+        return bool(ISO.call(_replay, ck, doc, timeout=600))
+    except ISO.Aborted as e:
+        print(f"process-aborted: replaying this input kills the process ({e})")
+        return True
+
+
+def _replay(ck: core.Check, doc) -> bool:
+    import sys
+
+    try:
+        return _replay_inner(ck, doc)
+    finally:
+        sys.stdout.flush()
+
+
+def _replay_inner(ck: core.Check, doc) -> bool:
     case = doc.get("case") or {}
+    if case.get("task") is not None:
+        r = case_worker(tuple(case["task"]))
+        print("case re-generated from its task:", {k: str(r.get(k))[:300] for k in ("status", "err", "fails", "crash")})
+        return bool(r.get("fails") or r.get("crash"))
     if case.get("fhist") is not None:
         failing = False
         for rec in FH.judge_history(case["fhist"]):
